@@ -1,7 +1,9 @@
 """Deterministic scheduling of the real CrackingSession.run against its keyboard thread.
 
-Two real threads, one baton: the main thread yields before every `PcfgQueue.next()` and before every
-printed guess, the keyboard thread yields inside `input()` and inside `time.sleep()`.  A schedule is
+Two real threads, one baton: the main thread yields before every `PcfgQueue.next()`, before every printed
+guess of a plain pre-terminal and before every call of the OMEN generator (`MarkovCracker.next_guess`, also
+the last call of a level, which finds nothing; the guess it returns is printed without a further yield), the
+keyboard thread yields inside `input()` and inside `time.sleep()`.  A schedule is
 a string over {m, k}: who runs until its next yield point."""
 import configparser
 import contextlib
@@ -27,6 +29,7 @@ class Baton:
         self.main_waiting = False
         self.kbd_state = 'atInput'          # atInput | gotLine | dead
         self.status_fails = False
+        self.omen_guess_pending = False
         self.out = []
 
     # ---- main side
@@ -78,7 +81,7 @@ class Baton:
             self.to_main.release()
 
 
-def run_session(pcfg, save_filename, save_config, load, schedule, events, limit=None, past_time=None, omen_yield=False):
+def run_session(pcfg, save_filename, save_config, load, schedule, events, limit=None, past_time=None):
     """runs the real CrackingSession.run under the baton; returns dict(out, ended, consumed)"""
     common.use_impl()
     import lib_guesser.cracking_session as cs
@@ -102,7 +105,10 @@ def run_session(pcfg, save_filename, save_config, load, schedule, events, limit=
         return orig_next(self_)
 
     def print_wrapper(guess):
-        baton.main_yield()
+        if baton.omen_guess_pending:
+            baton.omen_guess_pending = False        # the yield point of this guess was the generator call that produced it
+        else:
+            baton.main_yield()
         baton.out.append(guess)
 
     def status_wrapper(p):
@@ -125,12 +131,13 @@ def run_session(pcfg, save_filename, save_config, load, schedule, events, limit=
     orig_mc_next = mcmod.MarkovCracker.next_guess
 
     def mc_next_wrapper(self_):
-        # optional extra yield point: before every call of the OMEN generator (also the last one, which finds the level exhausted)
+        # yield point before every call of the OMEN generator (also the last one, which finds the level exhausted)
         baton.main_yield()
-        return orig_mc_next(self_)
+        g = orig_mc_next(self_)
+        baton.omen_guess_pending = g is not None
+        return g
 
-    if omen_yield:
-        mcmod.MarkovCracker.next_guess = mc_next_wrapper
+    mcmod.MarkovCracker.next_guess = mc_next_wrapper
     pqmod.PcfgQueue.next = next_wrapper
     pcfg.print_guess = print_wrapper
     session.report.print_status = status_wrapper
